@@ -54,7 +54,7 @@ def enumerate_damage(base, quick, rng):
             out.append({"kind": "emptysize", "at": i})
     if base["coding"] != "identity":
         ne = len(b0["enc"])
-        stride = 5 if quick else 1
+        stride = 5 if quick else 2
         for at in range(rng.randrange(stride), ne, stride):
             out.append({"kind": "corruptcode", "at": at, "xor": rng.choice([0x55, 0x01, 0x80, 0xff])})
         for at in range(1 + rng.randrange(stride), ne, stride):
@@ -69,12 +69,12 @@ def enumerated_runs(quick, seed):
     for coding in codings:
         for framing in bg.FRAMINGS:
             for variant in range(1 if quick else 3):
-                base = {"size": [40, 13, 300][variant], "pseed": seed * 10 + variant, "coding": coding, "framing": framing,
+                base = {"size": [40, 13, 120][variant], "pseed": seed * 10 + variant, "coding": coding, "framing": framing,
                         "chunks": ["rand", "sevens", "big"][variant], "ext": variant != 1, "decode": True,
                         "seg": [None, 7, 100][variant]}
                 for dmg in enumerate_damage(base, quick, rng):
                     case = dict(base, damage=dmg)
-                    apis = APIS if not quick else rng.sample(APIS, 4)
+                    apis = rng.sample(APIS, 4 if quick else 6)
                     for api in apis:
                         prefix = rng.choice(PREFIX) if rng.random() < 0.4 else None
                         r = api_run(case, api, prefix)
